@@ -4,6 +4,9 @@
 //! Record  C <method> <class> <txid hex> <attr>...     attr: v<type>:<value token>  m<key hex>  s<key hex>  f
 //! Result  I OK <size> <md5 of the encoded bytes>;<decoded attributes: type:token ...>   |  ENCERR  |  PANIC
 //! Facts   J rt=<0|1> decsize=<n> hdrlen=<n> mult4=<0|1> fit=<0|1>
+//! Record  C G <message hex> <perturbed hex>   (C02, last sentence: the encoded message and a copy in which only padding
+//!         bytes and reserved bits that the RFCs tell a receiver to ignore were changed)
+//! Result  I G <decoded attributes of the message>|<decoded attributes of the copy>     Facts  J same=<0|1>
 use rustun_verif_harness::wire::*;
 use rustun_verif_harness::*;
 use stun_rs::attributes::stun::*;
@@ -13,7 +16,81 @@ use stun_rs::*;
 #[path = "attrval.rs"]
 mod av;
 
-fn run_case(out: &mut Out, method: u16, class: u8, txid: &[u8; 12], specs: &[String]) {
+/// the bits of an attribute value that a receiver must ignore, as (offset, mask) pairs — the harness's own reading of the
+/// RFCs (8489 14.1/14.2/14.8/14.11, 8656 18.1/18.6/18.7/18.8/18.11/18.12/18.13); the Gallina `msg_mask` decides whether a
+/// perturbation is legal, this table only proposes it
+fn ignorable(ty: u16, v: &[u8]) -> Vec<(usize, u8)> {
+    let pre: &[u8] = match ty {
+        0x0001 | 0x0012 | 0x0016 | 0x0020 | 0x8023 | 0x802B | 0x802C => &[0xFF],
+        0x0009 => &[0xFF, 0xFF, 0xF8],
+        0x8001 => &[0x00, 0xFF, 0xF8],
+        0x000C => &[0, 0, 0xFF, 0xFF],
+        0x0018 => &[0x7F],
+        0x0019 | 0x0017 | 0x8000 => &[0, 0xFF, 0xFF, 0xFF],
+        0x8004 => &[0xFF, 0xFF],
+        _ => &[],
+    };
+    let mut r: Vec<(usize, u8)> = pre.iter().enumerate().filter(|(i, m)| **m != 0 && *i < v.len()).map(|(i, m)| (i, *m)).collect();
+    if ty == 0x8002 {
+        // PASSWORD-ALGORITHMS: the padding between entries
+        let mut off = 0usize;
+        while off + 4 <= v.len() {
+            let plen = u16::from_be_bytes([v[off + 2], v[off + 3]]) as usize;
+            let end = off + 4 + plen;
+            let pad = (4 - plen % 4) % 4;
+            if end + pad >= v.len() { break }
+            for i in end..end + pad { r.push((i, 0xFF)) }
+            off = end + pad;
+        }
+    }
+    r
+}
+
+fn render_decode(bytes: &[u8]) -> String {
+    match guarded(|| MessageDecoderBuilder::default().build().decode(bytes)) {
+        Err(()) => "DECPANIC".to_string(),
+        Ok(Err(_)) => "DECERR".to_string(),
+        Ok(Ok((m, n))) => {
+            let d: Vec<String> = m.attributes().iter().map(|a| format!("{}:{}", a.attribute_type().as_u16(), av::render(a))).collect();
+            format!("{} {}", n, if d.is_empty() { "-".to_string() } else { d.join(" ") })
+        }
+    }
+}
+
+/// perturb only ignorable bits / padding bytes of an encoded message; mode 0: every ignorable bit random, 1: one bit,
+/// 2: every ignorable bit set
+fn run_ignbits(out: &mut Out, rng: &mut Rng, bytes: &[u8], mode: u64) -> bool {
+    let mut slots: Vec<(usize, u8)> = vec![];
+    let mut pos = 20usize;
+    while pos + 4 <= bytes.len() {
+        let ty = u16::from_be_bytes([bytes[pos], bytes[pos + 1]]);
+        let n = u16::from_be_bytes([bytes[pos + 2], bytes[pos + 3]]) as usize;
+        let pad = (4 - n % 4) % 4;
+        if pos + 4 + n + pad > bytes.len() { break }
+        for (o, m) in ignorable(ty, &bytes[pos + 4..pos + 4 + n]) { slots.push((pos + 4 + o, m)) }
+        for i in 0..pad { slots.push((pos + 4 + n + i, 0xFF)) }
+        pos += 4 + n + pad;
+    }
+    if slots.is_empty() { return false }
+    let mut p = bytes.to_vec();
+    match mode {
+        0 => for (i, m) in &slots { p[*i] ^= (rng.below(256) as u8) & m },
+        1 => { let (i, m) = *rng.pick(&slots); let bits: Vec<u8> = (0..8).filter(|b| m >> b & 1 == 1).collect(); p[i] ^= 1 << *rng.pick(&bits) }
+        _ => for (i, m) in &slots { p[*i] |= m },
+    }
+    run_ignbits_case(out, bytes, &p);
+    true
+}
+
+fn run_ignbits_case(out: &mut Out, bytes: &[u8], p: &[u8]) {
+    out.rec(&format!("C G {} {}", hex(bytes), hex(p)));
+    let a = render_decode(bytes);
+    let b = render_decode(p);
+    out.imp(&format!("G {}|{}", a, b));
+    out.rec(&format!("J same={}", (a == b) as u8));
+}
+
+fn run_case(out: &mut Out, method: u16, class: u8, txid: &[u8; 12], specs: &[String]) -> Option<Vec<u8>> {
     out.rec(&format!("C {} {} {} {}", method, class, hex(txid), if specs.is_empty() { "-".to_string() } else { specs.join(" ") }));
     let cls = [MessageClass::Request, MessageClass::Indication, MessageClass::SuccessResponse, MessageClass::ErrorResponse][class as usize];
     let mut b = StunMessageBuilder::new(MessageMethod::try_from(method).unwrap(), cls).with_transaction_id(TransactionId::from(*txid));
@@ -27,7 +104,7 @@ fn run_case(out: &mut Out, method: u16, class: u8, txid: &[u8; 12], specs: &[Str
                 let ty: u16 = ty.parse().unwrap();
                 match guarded(|| av::build_stored(ty, tok)) {
                     Ok(Some(a)) => { orig.push((ty, av::render(&a))); b = b.with_attribute(a) }
-                    _ => { out.imp("UNBUILDABLE"); out.rec("J"); return }
+                    _ => { out.imp("UNBUILDABLE"); out.rec("J"); return None }
                 }
             }
             "m" => { orig.push((T_MI, "tail".into())); b = b.with_attribute(MessageIntegrity::new(key(r))) }
@@ -39,8 +116,8 @@ fn run_case(out: &mut Out, method: u16, class: u8, txid: &[u8; 12], specs: &[Str
     let mut buf = vec![0x5Au8; 70000];
     let enc = guarded(|| MessageEncoderBuilder::default().build().encode(&mut buf, &msg));
     let size = match enc {
-        Err(()) => { out.imp("PANIC"); out.rec("J"); return }
-        Ok(Err(_)) => { out.imp("ENCERR"); out.rec("J"); return }
+        Err(()) => { out.imp("PANIC"); out.rec("J"); return None }
+        Ok(Err(_)) => { out.imp("ENCERR"); out.rec("J"); return None }
         Ok(Ok(n)) => n,
     };
     let bytes = &buf[..size.min(buf.len())];
@@ -61,6 +138,7 @@ fn run_case(out: &mut Out, method: u16, class: u8, txid: &[u8; 12], specs: &[Str
     out.imp(&format!("OK {} {:x};{}", size, md5::compute(bytes), if rendering.is_empty() { "-".to_string() } else { rendering }));
     let hdrlen = u16::from_be_bytes([buf[2], buf[3]]) as usize;
     out.rec(&format!("J rt={} decsize={} hdrlen={} size={}", rt as u8, decsize, hdrlen, size));
+    if size <= buf.len() && size <= 3000 { Some(buf[..size].to_vec()) } else { None }
 }
 
 /// quoted-string constructor probe (REALM / NONCE): does an accepted input yield a value that survives encode + decode?
@@ -97,10 +175,12 @@ fn main() {
             let f: Vec<&str> = l.split(' ').collect();
             if f[0] == "C" && f[1] == "Q" {
                 run_ctor(&mut out, f[2].parse().unwrap(), &unhex(f[3]));
+            } else if f[0] == "C" && f[1] == "G" {
+                run_ignbits_case(&mut out, &unhex(f[2]), &unhex(f[3]));
             } else if f[0] == "C" {
                 let txid: [u8; 12] = unhex(f[3]).try_into().unwrap();
                 let specs: Vec<String> = if f[4] == "-" { vec![] } else { f[4..].iter().map(|s| s.to_string()).collect() };
-                run_case(&mut out, f[1].parse().unwrap(), f[2].parse().unwrap(), &txid, &specs);
+                let _ = run_case(&mut out, f[1].parse().unwrap(), f[2].parse().unwrap(), &txid, &specs);
             }
         }
         out.finish();
@@ -110,6 +190,9 @@ fn main() {
     let n = args.get("cases").map(|s| s.parse().unwrap()).unwrap_or(if args.thorough { 100000u64 } else { 3000 });
     let mine = n / args.shards + if args.shard < n % args.shards { 1 } else { 0 };
     let mut kinds_used = [0u64; 38];
+    let mut nign = 0u64;
+    // the kinds that carry reserved bits, over-represented in every third message (C02 ignorable-bit perturbation)
+    let reserved: Vec<usize> = (0..38).filter(|k| matches!(av::KINDS[*k].0, 0x0001 | 0x0012 | 0x0016 | 0x0020 | 0x8023 | 0x802B | 0x802C | 0x0009 | 0x8001 | 0x000C | 0x0018 | 0x0019 | 0x0017 | 0x8000 | 0x8004 | 0x8002)).collect();
     for i in 0..mine {
         let txid: [u8; 12] = rng.bytes(12).try_into().unwrap();
         // methods: the whole range, with the boundaries over-represented
@@ -118,7 +201,7 @@ fn main() {
         let mut specs = vec![];
         let na = rng.below(if i % 50 == 0 { 13 } else { 6 });
         for _ in 0..na {
-            let k = rng.below(38) as usize;
+            let k = if i % 3 == 0 && rng.chance(2, 3) { *rng.pick(&reserved) } else { rng.below(38) as usize };
             let (ty, fam) = av::KINDS[k];
             if ty == T_MI || ty == T_SHA || ty == T_FP { continue }
             let cands = av::gen_specs(&mut rng, i, ty, fam, false);
@@ -137,7 +220,9 @@ fn main() {
         }
         let tail = *rng.pick(&["", "", "m", "s", "f", "ms", "mf", "sf", "msf"]);
         for c in tail.chars() { specs.push(match c { 'm' => format!("m{}", hex(b"pw")), 's' => format!("s{}", hex(b"pw")), _ => "f".to_string() }) }
-        run_case(&mut out, method, class, &txid, &specs);
+        if let Some(bytes) = run_case(&mut out, method, class, &txid, &specs) {
+            if run_ignbits(&mut out, &mut rng, &bytes, i % 3) { nign += 1 }
+        }
     }
     // constructor probes: strings over the quoting alphabet, including quoted-pairs at the end (finding D8)
     let alphabet: [&str; 14] = ["a", "!", " ", "\t", "\r\n", "\"", "\\", "\\\"", "\\ ", "\\\t", "\u{e9}", "\u{c0}\u{80}", "\\a", "b"];
@@ -152,6 +237,6 @@ fn main() {
         run_ctor(&mut out, if k % 2 == 0 { 0x0014 } else { 0x0015 }, sbuf.as_bytes());
         nprobe += 1;
     }
-    out.note(&format!("suite=codecrt cases={} ctor_probes={} kinds_used={:?}", mine, nprobe, kinds_used));
+    out.note(&format!("suite=codecrt cases={} ignbits_records={} ctor_probes={} kinds_used={:?}", mine, nign, nprobe, kinds_used));
     out.finish();
 }
